@@ -325,6 +325,14 @@ def check(pid: str, tier: str, seed: int, module, level_text: str) -> int:
     axioms = audit(thms, log, built_mods)
     bad_thms = [t for t, a in axioms.items() if a is None or not set(a) <= ALLOWED_AXIOMS]
     proof_ok = built and not forbidden and not bad_thms and bool(thms)
+    # thorough tier: the compiled modules are re-checked by the toolchain's independent kernel re-checker
+    rechecked = None
+    if tier == "thorough" and built_mods:
+        q = subprocess.run(["lake", "env", "leanchecker"] + built_mods, cwd=LEAN, stdout=subprocess.PIPE,
+                           stderr=subprocess.STDOUT, text=True)
+        rechecked = q.returncode == 0
+        if not rechecked:
+            log.append("leanchecker FAILED:\n" + q.stdout[-2000:])
     # --- 2. correspondence + oracle
     ctx = Ctx(pid, tier, seed)
     rep = module.run(ctx)
@@ -341,6 +349,8 @@ def check(pid: str, tier: str, seed: int, module, level_text: str) -> int:
         broken.append("forbidden-construct:" + forbidden[0])
     for t in bad_thms:
         broken.append(f"theorem:{t}")
+    if rechecked is False:
+        broken.append("leanchecker")
     if rep.disagreements:
         broken.append("correspondence:" + rep.disagreements[0]["op"][:80])
     # --- 3. failing-input search when a proof obligation or the correspondence broke
@@ -400,7 +410,8 @@ def check(pid: str, tier: str, seed: int, module, level_text: str) -> int:
             "discharged": sum(1 for t in thms if t not in bad_thms),
             "checker_cmd": "cd /verif/lean && lake build driver %s && lake env lean <#print axioms of theorems.json[%s]>" % (" ".join(modules_for(pid)), pid),
             "trusted_base": [
-                "Lean 4.33.0 kernel + elaborator",
+                "Lean 4.33.0 kernel + elaborator" + ("" if rechecked is None else
+                                                    "; leanchecker re-check of %d modules: %s" % (len(built_mods), "passed" if rechecked else "FAILED")),
                 "axioms used: " + ", ".join(sorted({a for v in axioms.values() if v for a in v})) if any(axioms.values()) else "axioms used: none",
                 "hand-written model tied to /repo/src by this run's correspondence cases (differential test) and the constant tie",
                 "harness/driver glue (unverified parsing/printing)",
